@@ -349,6 +349,9 @@ func (tr *gtTr) stmt(s ast.Stmt, env *venv, next cont) gnode {
 			if why, ok := tr.diverges(c, env); ok {
 				return &nPanic{why: why}
 			}
+			if n, ok := tr.bufferStmt(c, env, next); ok {
+				return n
+			}
 			if n, ok := tr.mutCall(c, nil, false, env, next); ok {
 				return n
 			}
@@ -800,6 +803,94 @@ func (tr *gtTr) inside(saved []brkTarget, t brkTarget, f func() gnode) gnode {
 }
 
 func (tr *gtTr) switchStmt(x *ast.SwitchStmt, env *venv, next cont) gnode {
+	if n, ok := tr.joinSwitch(x, env, next); ok {
+		return n
+	}
+	return tr.switchStmtRaw(x, env, next)
+}
+
+// joinSwitch: like joinIf for a switch statement none of whose clauses can leave (fallthrough stays inside the switch
+// and is allowed; break, return, continue, goto, panic are not) and that assigns at least one variable visible outside:
+// the switch is an expression returning the tuple of those variables, and what follows it is translated once.
+func (tr *gtTr) joinSwitch(x *ast.SwitchStmt, env *venv, next cont) (gnode, bool) {
+	if !tr.st.joins || x.Init != nil {
+		return nil, false
+	}
+	if tr.leaves([]ast.Node{x.Body}, env, true) {
+		return nil, false
+	}
+	state, ok := tr.joinState([]ast.Node{x.Body}, env)
+	if !ok {
+		return nil, false
+	}
+	tupleK := tr.joinTuple(state)
+	inner := tr.switchStmtRaw(x, env.clone(), tupleK)
+	return tr.joinNode(inner, state, env, next), true
+}
+
+// leaves: can control leave one of these statements other than by falling out of its end?
+func (tr *gtTr) leaves(nodes []ast.Node, env *venv, allowFallthrough bool) bool {
+	leaves := false
+	for _, n := range nodes {
+		ast.Inspect(n, func(n ast.Node) bool {
+			switch y := n.(type) {
+			case *ast.BranchStmt:
+				if !(allowFallthrough && y.Tok == token.FALLTHROUGH) {
+					leaves = true
+				}
+			case *ast.ReturnStmt, *ast.LabeledStmt, *ast.FuncLit, *ast.GoStmt, *ast.DeferStmt:
+				leaves = true
+			case *ast.CallExpr:
+				if _, ok := tr.diverges(y, env); ok {
+					leaves = true
+				}
+				if isIdent(y.Fun, "panic") {
+					leaves = true
+				}
+			}
+			return !leaves
+		})
+	}
+	return leaves
+}
+
+// joinState: the variables visible outside that these statements assign, when all of them can be carried in a tuple
+func (tr *gtTr) joinState(nodes []ast.Node, env *venv) ([]stKey, bool) {
+	keys, _, _ := tr.assignedIn(nodes, env)
+	state := sortKeys(keys, env)
+	if len(state) == 0 {
+		return nil, false
+	}
+	for _, k := range state {
+		if _, t := tr.keyName(env, k); !t.supported() {
+			return nil, false
+		}
+	}
+	return state, true
+}
+
+func (tr *gtTr) joinTuple(state []stKey) cont {
+	return func(e *venv) gnode {
+		var names []string
+		for _, k := range state {
+			n, _ := tr.useKey(e, k)
+			names = append(names, n)
+		}
+		return &nTuple{names: names}
+	}
+}
+
+func (tr *gtTr) joinNode(inner gnode, state []stKey, env *venv, next cont) gnode {
+	var names []string
+	for _, k := range state {
+		n := tr.newName(k.base())
+		tr.setKeyName(env, k, n)
+		names = append(names, n)
+	}
+	return &nJoin{inner: inner, partial: nodePartial(inner), names: names, body: next(env)}
+}
+
+func (tr *gtTr) switchStmtRaw(x *ast.SwitchStmt, env *venv, next cont) gnode {
 	saved := tr.brk
 	next = tr.outside(saved, next)
 	return tr.scoped(env, next, func(e *venv, nx cont) gnode {
@@ -990,7 +1081,7 @@ func (tr *gtTr) rangeStmt(x *ast.RangeStmt, env *venv, next cont) gnode {
 	ifs, ret := singleIfReturn(x.Body)
 	list := tr.expr(x.X, env)
 	if list.typ.kind == kString && list.typ != tBytes {
-		gtFail("range over the runes of a string is outside the subset")
+		return tr.runeRange(x, env, next)
 	}
 	if list.typ.kind != kSlice && list.typ != tBytes {
 		gtFail("range over a %s is outside the subset", list.typ.name)
@@ -1085,7 +1176,11 @@ type gtParam struct {
 	ptr    bool     // passed by pointer
 }
 
-type gtAbstract struct{ name, typ string }
+// gtAbstract: a parameter of the translated function that stands for something the subset does not model.  key orders
+// the parameters that could be confused with one another (several of the same type: the regexps of a package, the
+// interface-typed fields of a node): by DECLARATION position, never by the order in which the body uses them, so that
+// swapping two uses changes the body and not the binders.  Parameters without a key come first, in order of first use.
+type gtAbstract struct{ name, typ, key string }
 
 type gtFn struct {
 	key      string // dir:Name or dir:Recv.Name
@@ -1113,6 +1208,13 @@ func (fn *gtFn) addAbstract(a gtAbstract) {
 		}
 	}
 	fn.abstracts = append(fn.abstracts, a)
+	sort.SliceStable(fn.abstracts, func(i, j int) bool {
+		ki, kj := fn.abstracts[i].key, fn.abstracts[j].key
+		if ki == "" || kj == "" {
+			return ki == "" && kj != ""
+		}
+		return ki < kj
+	})
 }
 
 var valueParamOrder = []struct{ name, typ string }{{"val_kind", "V -> Z"}, {"val_undefined", "V"}, {"val_null", "V"},
@@ -1183,8 +1285,9 @@ type gtState struct {
 	tables       map[string]*gtype // emitted package-level map literals: coq name -> type
 	pending      []string          // texts to emit, in dependency order
 	family       string
-	loopTexts    map[string]string // emitted loop functions, by name
-	joins        bool              // translate ifs whose branches cannot leave as expressions (joinIf)
+	loopTexts    map[string]string      // emitted loop functions, by name
+	tableRows    map[string][][2]string // the (key, value) rows of the map literals emitted so far
+	joins        bool                   // translate ifs whose branches cannot leave as expressions (joinIf)
 }
 
 var gtStates = map[*gen]*gtState{}
@@ -1683,6 +1786,27 @@ func (st *gtState) mapTable(g *gen, p *gpkg, name string, user *gtFn) (string, *
 			init = vs.Values[i]
 		}
 	}
+	if src, mt, ok := inverseByInit(p, name, init); ok {
+		// var name = make(map[V]K) filled by `func init() { for k, v := range src { name[v] = k } }`, the only place that
+		// touches it: the inverse of the literal src, whatever order the range takes, provided src's values are distinct
+		srcCoq, srcT := st.mapTable(g, p, src, user)
+		t := g.resolveType(p, f, mt, 0)
+		if t.kind != kMap || !t.supported() || t.usesValue() || t.key.kind != srcT.elem.kind || t.elem.kind != srcT.key.kind {
+			gtFail("package variable %s of type %s is outside the subset", name, t.name)
+		}
+		var rows []string
+		seen := map[string]bool{}
+		for _, r := range st.tableRows[srcCoq] {
+			if seen[r[1]] {
+				gtFail("%s: init() inverts %s, which has two entries with the same value (the result would depend on the order of the range)", name, src)
+			}
+			seen[r[1]] = true
+			rows = append(rows, "("+r[1]+", "+r[0]+")")
+		}
+		st.tables[coq] = t
+		st.pending = append(st.pending, fmt.Sprintf("(* %s: var %s = make(%s), filled by init() as the inverse of %s *)\nDefinition %s : %s :=\n  [%s].\n", p.dir, name, t.name, src, coq, t.coq(), strings.Join(rows, ";\n   ")))
+		return coq, t
+	}
 	cl, ok := init.(*ast.CompositeLit)
 	if !ok || cl.Type == nil {
 		gtFail("package variable %s is not initialised with a map literal", name)
@@ -1715,10 +1839,97 @@ func (st *gtState) mapTable(g *gen, p *gpkg, name string, user *gtFn) (string, *
 		}
 		seen[k.code] = true
 		rows = append(rows, "("+k.code+", "+v.code+")")
+		if st.tableRows == nil {
+			st.tableRows = map[string][][2]string{}
+		}
+		st.tableRows[coq] = append(st.tableRows[coq], [2]string{k.code, v.code})
 	}
 	st.tables[coq] = t
 	st.pending = append(st.pending, fmt.Sprintf("(* %s: var %s = %s{...}, in source order *)\nDefinition %s : %s :=\n  [%s].\n", p.dir, name, t.name, coq, t.coq(), strings.Join(rows, ";\n   ")))
 	return coq, t
+}
+
+// inverseByInit: is the package-level variable `name`, declared as make(map[V]K), touched in exactly one place of the
+// package, namely `for k, v := range src { name[v] = k }` as a top-level statement of a func init(), src another
+// package-level variable?
+func inverseByInit(p *gpkg, name string, init ast.Expr) (src string, mapType ast.Expr, ok bool) {
+	mk, isCall := init.(*ast.CallExpr)
+	if !isCall || !isIdent(mk.Fun, "make") || len(mk.Args) < 1 {
+		return "", nil, false
+	}
+	if _, isMap := mk.Args[0].(*ast.MapType); !isMap {
+		return "", nil, false
+	}
+	var site *ast.AssignStmt
+	for _, f := range p.files {
+		for _, d := range f.Decls {
+			fd, isFn := d.(*ast.FuncDecl)
+			if !isFn || fd.Recv != nil || fd.Name.Name != "init" || fd.Body == nil {
+				continue
+			}
+			for _, st := range fd.Body.List {
+				rs, isRange := st.(*ast.RangeStmt)
+				if !isRange || rs.Tok != token.DEFINE || len(rs.Body.List) != 1 {
+					continue
+				}
+				k, okK := rs.Key.(*ast.Ident)
+				v, okV := rs.Value.(*ast.Ident)
+				m, okM := rs.X.(*ast.Ident)
+				as, okA := rs.Body.List[0].(*ast.AssignStmt)
+				if !okK || !okV || !okM || !okA || as.Tok != token.ASSIGN || len(as.Lhs) != 1 || len(as.Rhs) != 1 || k.Name == "_" || v.Name == "_" || k.Name == v.Name {
+					continue
+				}
+				ix, isIx := as.Lhs[0].(*ast.IndexExpr)
+				if !isIx || !isIdent(ix.X, name) || !isIdent(ix.Index, v.Name) || !isIdent(as.Rhs[0], k.Name) || m.Name == name {
+					continue
+				}
+				if _, isVar := p.vars[m.Name]; !isVar || site != nil {
+					return "", nil, false
+				}
+				site, src = as, m.Name
+			}
+		}
+	}
+	if site == nil {
+		return "", nil, false
+	}
+	// nothing else may touch it
+	others := false
+	for _, f := range p.files {
+		ast.Inspect(f, func(n ast.Node) bool {
+			switch x := n.(type) {
+			case *ast.AssignStmt:
+				if x == site {
+					return true
+				}
+				for _, l := range x.Lhs {
+					if isIdent(l, name) && x.Tok != token.DEFINE {
+						others = true
+					}
+					if ix, ok := l.(*ast.IndexExpr); ok && isIdent(ix.X, name) {
+						others = true
+					}
+				}
+			case *ast.IncDecStmt:
+				if ix, ok := x.X.(*ast.IndexExpr); ok && isIdent(ix.X, name) {
+					others = true
+				}
+			case *ast.UnaryExpr:
+				if x.Op == token.AND && isIdent(x.X, name) {
+					others = true
+				}
+			case *ast.CallExpr:
+				if isIdent(x.Fun, "delete") && len(x.Args) > 0 && isIdent(x.Args[0], name) {
+					others = true
+				}
+			}
+			return true
+		})
+	}
+	if others || assignedElsewhere(p, src) {
+		return "", nil, false
+	}
+	return src, mk.Args[0], true
 }
 
 // assignedElsewhere: is the package-level variable ever the target of an assignment (or has its address taken, or
@@ -2044,53 +2255,18 @@ func (tr *gtTr) joinIf(x *ast.IfStmt, cond ex, env *venv, next cont) (gnode, boo
 	if !tr.st.joins {
 		return nil, false
 	}
-	leaves := false
-	var check func(n ast.Node)
-	check = func(n ast.Node) {
-		ast.Inspect(n, func(n ast.Node) bool {
-			switch y := n.(type) {
-			case *ast.ReturnStmt, *ast.BranchStmt, *ast.LabeledStmt, *ast.FuncLit, *ast.GoStmt, *ast.DeferStmt:
-				leaves = true
-			case *ast.CallExpr:
-				if _, ok := tr.diverges(y, env); ok {
-					leaves = true
-				}
-				if isIdent(y.Fun, "panic") {
-					leaves = true
-				}
-			}
-			return !leaves
-		})
-	}
-	check(x.Body)
-	if x.Else != nil {
-		check(x.Else)
-	}
-	if leaves {
-		return nil, false
-	}
 	nodes := []ast.Node{x.Body}
 	if x.Else != nil {
 		nodes = append(nodes, x.Else)
 	}
-	keys, _, _ := tr.assignedIn(nodes, env)
-	state := sortKeys(keys, env)
-	if len(state) == 0 {
+	if tr.leaves(nodes, env, false) {
 		return nil, false
 	}
-	for _, k := range state {
-		if _, t := tr.keyName(env, k); !t.supported() {
-			return nil, false
-		}
+	state, ok := tr.joinState(nodes, env)
+	if !ok {
+		return nil, false
 	}
-	tupleK := func(e *venv) gnode {
-		var names []string
-		for _, k := range state {
-			n, _ := tr.useKey(e, k)
-			names = append(names, n)
-		}
-		return &nTuple{names: names}
-	}
+	tupleK := tr.joinTuple(state)
 	a := tr.scoped(env.clone(), tupleK, func(e2 *venv, nx2 cont) gnode { return tr.block(x.Body.List, e2, nx2) })
 	var b gnode
 	if x.Else == nil {
@@ -2098,12 +2274,5 @@ func (tr *gtTr) joinIf(x *ast.IfStmt, cond ex, env *venv, next cont) (gnode, boo
 	} else {
 		b = tr.stmt(x.Else, env.clone(), tupleK)
 	}
-	inner := &nIf{cond: cond, a: a, b: b}
-	var names []string
-	for _, k := range state {
-		n := tr.newName(k.base())
-		tr.setKeyName(env, k, n)
-		names = append(names, n)
-	}
-	return &nJoin{inner: inner, partial: nodePartial(inner), names: names, body: next(env)}, true
+	return tr.joinNode(&nIf{cond: cond, a: a, b: b}, state, env, next), true
 }
